@@ -287,7 +287,7 @@ def main(argv=None):
                     replayed = replay_obligation(a.repo, ob, rep)
                 except Exception as e:  # replay is best effort
                     rep["replay_error"] = "%s: %s" % (type(e).__name__, e)
-            if not replayed and not a.no_replay and ob.mode == "ring" and getattr(ob, "run", None) is not None:
+            if not replayed and not a.no_replay and ob.mode in ("ring", "group") and getattr(ob, "run", None) is not None:
                 try:
                     replayed = sampled(ob, rep)
                 except Exception as e:
